@@ -23,3 +23,38 @@ package codec
 //@   loop 1 invariant 0 <= i && (i == 0 || lim * (i - 1) < len(input))
 //@   loop 1 iteration-ensures [next-block-in-order] calls(cryptFn) == 1 && arg(cryptFn, 0).arr == input.arr && arg(cryptFn, 0).off == input.off + lim * at_head(i) && len(arg(cryptFn, 0)) == min(lim, len(input) - lim * at_head(i)) && ret(cryptFn, 1) == nil && i == at_head(i) + 1 && len(result) == at_head(len(result)) + len(ret(cryptFn, 0))
 //@   ensures [block-error-aborts] result1 != nil ==> result0 == nil && result1 == ret(cryptFn, 1, last)
+
+// ---------------- RSA key loading and use (C04: the decryptors of the signature gate) ----------------
+// NewRsaDecryptor: the key file is read, its PEM block parsed as a PKCS#1 private key; every failure is returned
+// with no decryptor; the decryptor holds exactly the parsed key and processes blocks of the key's byte length.
+//@ func NewRsaDecryptor
+//@   prop C04
+//@   ensures [unreadable-file] ret(os.ReadFile, 1) != nil ==> result0 == nil && result1 == ret(os.ReadFile, 1) && calls(pem.Decode) == 0
+//@   ensures [reads-the-given-file] calls(os.ReadFile) == 1 && arg(os.ReadFile, 0) == file
+//@   ensures [not-pem] calls(pem.Decode) == 1 && ret(pem.Decode, 0) == nil ==> result0 == nil && result1 == ErrPrivateKey && calls(x509.ParsePKCS1PrivateKey) == 0
+//@   ensures [pem-of-the-file-content] calls(pem.Decode) == 1 ==> arg(pem.Decode, 0) == ret(os.ReadFile, 0)
+//@   ensures [unparsable-key] calls(x509.ParsePKCS1PrivateKey) == 1 && ret(x509.ParsePKCS1PrivateKey, 1) != nil ==> result0 == nil && result1 == ret(x509.ParsePKCS1PrivateKey, 1)
+//@   ensures [holds-the-parsed-key] result1 == nil ==> typeis(result0, ptr(rsaDecryptor)) && unbox(result0, ptr(rsaDecryptor)).privateKey == ret(x509.ParsePKCS1PrivateKey, 0) && arg(x509.ParsePKCS1PrivateKey, 0) == ret(pem.Decode, 0).Bytes && unbox(result0, ptr(rsaDecryptor)).bytesLimit == ret(BitLen) >> 3
+//@ func (*rsaDecryptor).Decrypt
+//@   prop C04
+//@   opaque crypt
+//@   requires d != nil
+//@   ensures [block-wise-over-the-whole-input] calls(crypt) == 1 && arg(crypt, 1) == input && result0 == ret(crypt, 0) && result1 == ret(crypt, 1)
+//@ func (*rsaDecryptor).Decrypt$1
+//@   prop C04
+//@   opaque rsaDecryptBlock
+//@   ensures [each-block-under-the-private-key] calls(rsaDecryptBlock) == 1 && arg(rsaDecryptBlock, 0) == d.privateKey && arg(rsaDecryptBlock, 1) == block && result0 == ret(rsaDecryptBlock, 0) && result1 == ret(rsaDecryptBlock, 1)
+//@ func (*rsaDecryptor).DecryptBase64
+//@   prop C04
+//@   opaque Decrypt
+//@   requires d != nil
+//@   ensures [empty-is-nothing] len(input) == 0 ==> result0 == nil && result1 == nil && calls(Decrypt) == 0
+//@   ensures [bad-base64] len(input) > 0 && ret(DecodeString, 1) != nil ==> result0 == nil && result1 == ret(DecodeString, 1) && calls(Decrypt) == 0
+//@   ensures [decoded-then-decrypted] len(input) > 0 && ret(DecodeString, 1) == nil ==> calls(d.Decrypt) == 1 && arg(d.Decrypt, 1) == ret(DecodeString, 0) && arg(DecodeString, 1) == input && result0 == ret(Decrypt, 0) && result1 == ret(Decrypt, 1)
+// NewRsaEncryptor: a PEM block holding a PKIX RSA public key; plaintext blocks leave room for the PKCS#1 v1.5 padding.
+//@ func NewRsaEncryptor
+//@   prop C04
+//@   ensures [not-pem] ret(pem.Decode, 0) == nil ==> result0 == nil && result1 == ErrPublicKey
+//@   ensures [unparsable-key] calls(x509.ParsePKIXPublicKey) == 1 && ret(x509.ParsePKIXPublicKey, 1) != nil ==> result0 == nil && result1 == ret(x509.ParsePKIXPublicKey, 1)
+//@   ensures [other-key-types-rejected] calls(x509.ParsePKIXPublicKey) == 1 && ret(x509.ParsePKIXPublicKey, 1) == nil && !typeis(ret(x509.ParsePKIXPublicKey, 0), ptr(rsa.PublicKey)) ==> result0 == nil && result1 == ErrNotRsaKey
+//@   ensures [holds-the-parsed-key-with-padding-room] result1 == nil ==> typeis(result0, ptr(rsaEncryptor)) && unbox(result0, ptr(rsaEncryptor)).publicKey == unbox(ret(x509.ParsePKIXPublicKey, 0), ptr(rsa.PublicKey)) && unbox(result0, ptr(rsaEncryptor)).bytesLimit == (ret(BitLen) >> 3) - 11
